@@ -14,6 +14,8 @@
      MissingKeyEmpty         a host lacking a key is treated as carrying the empty value
      FallbackIgnoresDefault  the default-subset fallback uses every host
      EmptySelectorIndexed    the pre-index builder indexes into the keys of a selector without keys (panic; fixed in the code)
+     RouteCriteriaMutatedByRequest  (module SubsetRoute) the request's metadata is merged IN PLACE into the criteria object
+                             stored in the route rule, which every request of the route shares
      NilFallsBack            a nil answer of the selected subset's balancer (all members unhealthy) falls through to the
                              fallback entry - what the pinned code does (open finding of C15)
 
@@ -97,6 +99,23 @@ LB(S) == IF S = {} THEN {None} ELSE IF S \cap healthy # {} THEN S \cap healthy E
 AllowedChoose(c) == IF Primary(c) # {} THEN LB(Primary(c)) ELSE LB(Fallback)
 (* a request without match criteria (nil) uses every host *)
 AllowedChooseNil == LB(All)
+
+(* ------------------------------------------------------------------ criteria of a request
+   proxy/downstream.go MetadataMatchCriteria(): what a request hands to the balancer is the route's metadata_match
+   overridden / extended by the request's own metadata (variable x-mosn-router-meta, e.g. set by the header_to_metadata
+   stream filter): the request's value wins on a common key, every other key of both is kept.  Without request metadata
+   the route's criteria are used as they are; without either there are no criteria (nil: every host).  It is a PURE
+   function of (route, request): no request may change what a later request of the same route carries.
+   Optional maps: <<>> = absent, <<m>> = present (m may be the empty map: criteria without pairs select the fallback). *)
+Absent    == <<>>
+Some(m)   == <<m>>
+IsSome(o) == Len(o) = 1
+Override(base, over) == [k \in DOMAIN base \cup DOMAIN over |-> IF k \in DOMAIN over THEN over[k] ELSE base[k]]
+ReqCriteria(route, req) == IF ~IsSome(req) THEN route
+                           ELSE IF ~IsSome(route) THEN req
+                           ELSE Some(Override(route[1], req[1]))
+CandidatesOf(crit)    == IF IsSome(crit) THEN Candidates(crit[1]) ELSE All
+AllowedChooseOf(crit) == IF IsSome(crit) THEN AllowedChoose(crit[1]) ELSE AllowedChooseNil
 
 (* ------------------------------------------------------------------ implementation shape *)
 (* the `value, ok := metadata[key]` of both builders and of HostMatches *)
